@@ -229,3 +229,83 @@ def _chain(node):
         parts.append(node.id)
         return ".".join(reversed(parts))
     return None
+
+
+class _Return(Exception):
+    def __init__(self, value):
+        self.value = value
+
+
+def fold_function(fn, env=None, max_steps=20000):
+    """
+    Fold a *closed* table-building function (no inputs beyond ``env``) to its return value: straight-line
+    assignments, stores into local containers, ``for`` over constant iterables and ``if`` on constant tests.
+    Anything else raises NotConstant.  This is constant propagation over a function without inputs, the static
+    counterpart of reading a literal table.
+    """
+    env = dict(env or {})
+    budget = [max_steps]
+    body = fn.body
+    if body and isinstance(body[0], ast.Expr) and isinstance(getattr(body[0], "value", None), ast.Constant) and isinstance(body[0].value.value, str):
+        body = body[1:]
+    try:
+        _run(body, env, budget)
+    except _Return as r:
+        return r.value
+    return None
+
+
+def _run(stmts, env, budget):
+    for s in stmts:
+        budget[0] -= 1
+        if budget[0] < 0:
+            raise NotConstant("step budget")
+        if isinstance(s, ast.Assign):
+            v = _fold(s.value, env)
+            for t in s.targets:
+                _store(t, v, env)
+        elif isinstance(s, ast.AnnAssign):
+            if s.value is not None:
+                _store(s.target, _fold(s.value, env), env)
+        elif isinstance(s, ast.AugAssign):
+            f = _BIN.get(type(s.op))
+            if f is None:
+                raise NotConstant("operator")
+            cur = _fold(s.target, env)
+            _store(s.target, f(cur, _fold(s.value, env)), env)
+        elif isinstance(s, ast.For):
+            if s.orelse:
+                raise NotConstant("for-else")
+            for item in list(_fold(s.iter, env)):
+                _bind(s.target, item, env)
+                _run(s.body, env, budget)
+        elif isinstance(s, ast.If):
+            _run(s.body if _fold(s.test, env) else s.orelse, env, budget)
+        elif isinstance(s, ast.Return):
+            raise _Return(_fold(s.value, env) if s.value is not None else None)
+        elif isinstance(s, ast.Pass):
+            pass
+        elif isinstance(s, ast.Expr) and isinstance(s.value, ast.Constant):
+            pass
+        elif isinstance(s, ast.Expr) and isinstance(s.value, ast.Call) and isinstance(s.value.func, ast.Attribute) and s.value.func.attr in ("append", "add", "update", "extend"):
+            recv = _fold(s.value.func.value, env)
+            if not isinstance(recv, (list, set, dict, bytearray)):
+                raise NotConstant("mutator on non-container")
+            getattr(recv, s.value.func.attr)(*[_fold(a, env) for a in s.value.args])
+        elif isinstance(s, ast.Assert):
+            if not _fold(s.test, env):
+                raise NotConstant("assertion fails")
+        else:
+            raise NotConstant(type(s).__name__)
+
+
+def _store(target, value, env):
+    if isinstance(target, (ast.Name, ast.Tuple, ast.List)):
+        _bind(target, value, env)
+    elif isinstance(target, ast.Subscript):
+        base = _fold(target.value, env)
+        if not isinstance(base, (list, dict, bytearray)):
+            raise NotConstant("store into non-container")
+        base[_fold(target.slice, env)] = value
+    else:
+        raise NotConstant("target")
